@@ -83,6 +83,7 @@ def run(tier: str, rep: Report, prefixes=("P12.",), pid=PID):
             first = w.req("jsonw.load_outcomes", path_in=pf)
             w.req("jsonw.terms_to_file", terms=cwterms, path=str(wd / f"cw-terms-{v}.ndjson"))
             w.req("jsonw.shapes_to_file", shapes=shapes[:60], path=str(wd / f"cw-shapes-{v}.ndjson"))
+            w.req("jsonw.exotic_calls")
             later = w.req("jsonw.load_outcomes", path_in=pf)
         finally:
             w.close()
